@@ -21,6 +21,7 @@ import TracingModel.Core.JsonDriver
 import TracingModel.Core.NonBlockingDriver
 import TracingModel.Core.RollingDriver
 import TracingModel.Core.MacrosDriver
+import TracingModel.Core.InstrumentDriver
 
 open TM TM.Wire
 
@@ -70,6 +71,7 @@ def dispatch (prop mode : String) : Option (List String → String) :=
   | "C09", "modelfilt" => some FilteringDriver.model
   | "C09", "specfilt" => some FilteringDriver.spec
   | "C08", "model" => some DirectiveDriver.model2
+  | "C17", "model" => some InstrumentDriver.model
   | "C16", "model" => some RollingDriver.model
   | "C15", "model" => some NonBlockingDriver.model
   | "C14", "model" => some JsonDriver.model
